@@ -17,7 +17,7 @@ POOL = 12
 CHUNK = 1000
 TIME_UNITS = [1.0, 0.5, 0.125]     # seconds per time tick (chosen per case from its sizes)
 FREQ_UNIT = 250.0                  # Hz per frequency tick when tpl.fu = 250; MAX_FREQUENCY = 20000 ticks (Raster!FMAXT)
-OFF = -(2 ** 30)                   # sentinel: value not an integer / coordinate not on the lattice
+OFF = -(2 ** 30)                   # sentinel: coordinate not on the lattice
 
 RULE = ("every call of the TLA+ enumeration (template sizes x both dimension orders x three spacings; boxes on the ticks "
         "around the template, time intervals, time stamps, catalogue geometries of all nine kinds at two scales, lists of two "
@@ -81,11 +81,21 @@ def _template(tp, tu, fu, variant):
     return arr
 
 
-def _int(x):
+def _num(numeral):
+    """the number a numeral of the case stands for: "3" -> 3, "0.1" -> 0.1, "1/3" -> 1/3 (the nearest double)."""
+    if "/" in numeral:
+        p, q = numeral.split("/")
+        return int(p) / int(q)
+    return float(numeral) if "." in numeral else int(numeral)
+
+
+def _cell(x):
+    """canonical text of a cell's content: the decimal integer when it is integral, else the hex form of the double equal to it
+    (a float32 cell converts to double exactly)."""
     x = float(x)
-    if x != x or x in (float("inf"), float("-inf")) or x != int(x) or abs(x) >= 2 ** 30:
-        return OFF
-    return int(x)
+    if x != x or x in (float("inf"), float("-inf")):
+        return repr(x)
+    return str(int(x)) if x == int(x) else x.hex()
 
 
 def _coords(r, name, unit):
@@ -106,7 +116,7 @@ def _run(geoms, arr, kw, tu, fu):
     dims = [str(d) for d in r.dims]
     cells = []
     if sorted(dims) == ["frequency", "time"]:
-        cells = [[_int(v) for v in row] for row in r.transpose("time", "frequency").values]
+        cells = [[_cell(v) for v in row] for row in r.transpose("time", "frequency").values]
     return {"raised": "", "dims": dims, "tc": _coords(r, "time", tu), "fc": _coords(r, "frequency", fu), "cells": cells}
 
 
@@ -114,8 +124,8 @@ def execute(case):
     tp = case["tpl"]
     tu, fu = _units(tp)
     geoms = [build(g, tu, fu) for g in case["geoms"]]
-    values = case["values"][0] if case["scalar"] else list(case["values"])
-    kw = dict(values=values, fill=case["fill"], dtype=np.dtype(case["dt"]))
+    values = _num(case["values"][0]) if case["scalar"] else [_num(v) for v in case["values"]]
+    kw = dict(values=values, fill=_num(case["fill"]), dtype=np.dtype(case["dt"]))
     a, b = _template(tp, tu, fu, "A"), _template(tp, tu, fu, "B")
     return {"r1": _run(geoms, a, dict(kw), tu, fu),
             "r2": _run(geoms, b, dict(kw), tu, fu),
@@ -140,6 +150,13 @@ def _rand_geom(rng, tp):
     return {"type": "LineString", "coordinates": p}
 
 
+_SPECIAL = [("float64", ["0.1", "0.7", "0.3", "1/3", "2", "16777217"], ["0", "0.3", "-1"]),
+            ("float32", ["0.1", "0.7", "0.3", "1/3", "2", "5"], ["0", "1/3"]),
+            ("int32", ["16777217", "2147483647", "1", "2", "3"], ["0", "-1"]),
+            ("uint32", ["4294967295", "16777217", "1", "2", "3"], ["0", "7"]),
+            ("uint8", ["255", "1", "2", "3"], ["0", "7"])]
+
+
 def random_cases(rng, tier):
     """Templates up to 8 x 8 with random origin and spacing, 1-3 random geometries (boxes mostly), random values/fill."""
     n = 250 if tier == "quick" else 4000
@@ -156,6 +173,11 @@ def random_cases(rng, tier):
         fill = rng.choice([0, 0, -1, 7])
         vals = [rng.randint(1, 6)] if scalar else rng.sample([1, 2, 3, 4, 5, 6], ng)
         dt = rng.choice(["float32", "int16", "int32", "float64"] if fill < 0 else ["float32", "uint8", "int32", "float64"])
+        vals, fill = [str(v) for v in vals], str(fill)
+        if rng.random() < 0.25:                          # numerals a float32 raster could not carry (Raster!Cast knows their forms)
+            dt, pool, fills = rng.choice(_SPECIAL)
+            vals = rng.sample(pool, 1 if scalar else ng)
+            fill = rng.choice(fills)
         yield {"tpl": tp, "geoms": geoms, "values": vals, "scalar": scalar, "fill": fill, "dt": dt}
 
 
@@ -172,7 +194,7 @@ def finding_key(obs, clause):
 
 def nontrivial(o):
     r = o["out"].get("r1", {})
-    return bool(r.get("cells")) and any(v != o["in"]["fill"] for row in r["cells"] for v in row)
+    return bool(r.get("cells")) and len({v for row in r["cells"] for v in row}) > 1
 
 
 MANIFEST = {
